@@ -85,7 +85,7 @@ PACK_JUDGE = {"module": "Judge_Pack", "cfg": "Judge_Pack.cfg"}
 
 def pack_stage(name, universe, rulemode, prop, seed, extra_args=None, **kw):
     # user rules spell names literally: only the identity table is sound where rules refer to names
-    g = "0" if universe in ("ignore", "spell", "lines") else "0,%d" % (seed * 3 + 1)
+    g = "0" if universe in ("ignore", "spell", "rootcyc", "lines") else "0,%d" % (seed * 3 + 1)
     d = dict(name=name, module="MC_Pack", cfg="MC_Pack.cfg", family="pack",
              overrides={"Universe": '"%s"' % universe, "RuleMode": '"%s"' % rulemode},
              vh_args=["-props", prop, "-gamma", g] + (extra_args or []), judge=PACK_JUDGE, exhaustive=True)
@@ -113,6 +113,7 @@ def pack_stages(prop, tier, seed):
         st = [pack_stage("safety", "safetyq" if q else "safety", "none", prop, seed, timeout=3000)]
         if prop == "C19":
             st.append(pack_stage("rulelines", "lines", "none", prop, seed))
+            st.append(pack_stage("rootcyc", "rootcyc", "none", prop, seed))      # the source argument is a link in a cycle
             st.append(dict(name="degenerate", module="MC_Unpack", cfg="MC_Unpack_q.cfg", family="unpack", judge=UNPACK_JUDGE, exhaustive=True,
                            overrides={"MaxLen": "2", "Alphabet": "<- AlphaDegenerate"}, vh_args=["-props", prop, "-gamma", "0"]))
             st += [s2 for s2 in addr_stages("C07", tier, seed)]
@@ -185,12 +186,16 @@ def builder_stages(prop, tier, seed):
                                                      "Vers": "{1}", "AllowedSets": "<- MCAllowed1", "Adds": "<- MCAddsF", "MaxDeps": "2"})
     sched = builder_stage("sched", prop, seed, {"Callers": '{"c1", "c2"}', "MaxAdds": "1" if q else "2", "Adds": "<- MCAddsR", "RegPkgs": "{}",
                                                  "Concurrent": "TRUE", "MaxEdges": "2", "LocalRels": "<- MCLocalRels0"})
+    conc = builder_stage("conc", prop, seed, {"Adds": "<- MCAddsR", "RegPkgs": "{}", "MaxEdges": "1", "MaxAdds": "2", "Contents": "{1, 2}"},
+                         race=True, vh_args=["-props", prop, "-gamma", "%d" % (seed * 6), "-mode", "conc"])
     live = [dict(kind="design", name="live1", module="Live_Builder", cfg="Live_Builder.cfg", properties=["Terminates", "EachDrainEnds", "QueuesBounded"]),
             dict(kind="design", name="live2", module="Live_Builder", cfg="Live_Builder2.cfg", properties=["Terminates", "EachDrainEnds", "QueuesBounded"])]
     if prop == "C14":
-        return [base, fan, sched, finders] if q else live + [base, fan, sched, finders, builder_stage("graph3", prop, seed, {"MaxEdges": "3", "Finders": '{"F1", "F2"}', "Adds": "<- MCAdds3", "Pkgs": '{"P1", "P2", "P3"}'}, sim={"num": 40000, "depth": 60}, workers=1)]
+        return [base, fan, sched, finders, conc] if q else live + [conc, base, fan, sched, finders, builder_stage("graph3", prop, seed, {"MaxEdges": "3", "Finders": '{"F1", "F2"}', "Adds": "<- MCAdds3", "Pkgs": '{"P1", "P2", "P3"}'}, sim={"num": 40000, "depth": 60}, workers=1)]
+    # finders that return warnings together with the dependencies they report
+    warn = builder_stage("warn", prop, seed, {"DiagKinds": '{"none", "warn"}', "MaxEdges": "2", "MaxAdds": "1", "Adds": "<- MCAddsR", "RegPkgs": "{}"})
     if prop == "C08":
-        return [base, coal, fan, finders] if q else [base, coal, fan, finders, vers]
+        return [base, coal, fan, finders, warn] if q else [base, coal, fan, finders, warn, vers]
     if prop == "C17":
         return [vers]
     if prop == "C12":
@@ -200,8 +205,6 @@ def builder_stages(prop, tier, seed):
                       vh_args=["-props", prop, "-gamma", g, "-mode", "faults"], timeout=3000)
         wfault = pack_stage("writefaults", "rt", "none", prop, seed, extra_args=["-mode", "wfaults"])
         return [faults, ufault, wfault]
-    conc = builder_stage("conc", prop, seed, {"Adds": "<- MCAddsR", "RegPkgs": "{}", "MaxEdges": "1", "MaxAdds": "2", "Contents": "{1, 2}"},
-                         race=True, vh_args=["-props", prop, "-gamma", "%d" % (seed * 6), "-mode", "conc"])
     regsub = builder_stage("regsub", prop, seed, {"Adds": "<- MCAddsG", "Pkgs": '{"P1"}', "MaxEdges": "1", "MaxAdds": "2"})
     if prop == "C13":
         return [coal, base, regsub, sched, conc] if not q else [coal, regsub, sched, conc]
